@@ -412,6 +412,9 @@ def run(ctx):
         share(ctx, "C03", ("R03.1",), "R01.9", "source-order obligations shared with C03", 3)
         ctx.rule("R01.15", "the `=value` of a token lives in an optional<std::string>: copying a token (also onto itself, as an in-place filter `args[k++] = args[i]` does) keeps it (R18.4 re-evaluated) - a token that loses its value is parsed as `--name` and takes the NEXT word")
         share(ctx, "C18", ("R18.4",), "R01.15", "optional copy obligations shared with C18", 1)
+        ctx.rule("R01.16", "every way in turns every element of its range into a token (R12.10 re-evaluated with its type-level witnesses): an added parse(Iter, Iter) that measures or walks its range "
+                           "twice loses every word but the first for a read-once iterator (a response file read through std::istream_iterator)")
+        share(ctx, "C12", ("R12.10",), "R01.16", "entry-point obligations shared with C12", 2)
     # ---- R01.10: the letter list really is the multiset of all letters of the token
     ctx.rule("R01.10", "as_short_list() returns every letter behind the dash with its multiplicity (size() and count() mean what R01.7/R01.8/R11.1 take them to mean)")
     asl = [f for f in prog.methods_of(NS + "user_input") if f.name == "as_short_list" and f.has_cfg]
